@@ -7,6 +7,8 @@
  * usage: world <nlibs> <init0><init1>[:<world>] <bound> <maxexec> <prog0> <prog1> [<prog2>]
  *   init: O ok | F fail | R ok+recursive call of own function | X ok+call of the other
  *         library's function | G ok, GIL released in the middle | S fail after recursive call
+ *         M the module init raises (PyErr_Occurred() after _CFFI_PYTHON_STARTUP_FUNC; the exports
+ *         table is never filled) | C the init code does not compile (Py_CompileString NULL)
  *   world (initial state; default: Python not initialised, nobody owns the GIL):
  *         P      = Python is already initialised when the threads start, the GIL is free
  *                  (the library is loaded into a running interpreter; callers came through
@@ -15,7 +17,8 @@
  *                  operation and keeps it until its program ends (a C-extension / PyDLL
  *                  caller); the stub Python still releases it where real Python would
  *                  (around C calls made by the init code, init kind G)
- *   prog: string over {0,1,s,t}: 0/1 = call lib_f_<n>(7); s/t = cffi_start_python() of lib 0/1
+ *   prog: string over {0,1,g,h,s,t}: 0/1 = call lib_f_<n>(7); s/t = cffi_start_python() of lib 0/1;
+ *         g/h = call lib_g_<n>(7), whose extern "Python" function returns a 24-byte struct
  * output: one line per DISTINCT event log:  LOG <count> <choices,...> | ev;ev;...
  *         and a final STAT line.  Exit status 0, or 3 on harness failure.
  */
@@ -31,7 +34,7 @@
 
 struct _cffi_externpy_s { const char *name; size_t size_of_result; void *r1, *r2; };
 
-int lib_f_0(int), lib_f_1(int), lib_start_0(void), lib_start_1(void);
+int lib_f_0(int), lib_f_1(int), lib_g_0(int), lib_g_1(int), lib_start_0(void), lib_start_1(void);
 
 /* ------------------------------------------------------------------ scheduler */
 #define MAXT 4
@@ -302,13 +305,32 @@ void PyGILState_Release(PyGILState_STATE st) { if (st == 0) gil_release(); }
 
 PyObject *Py_CompileString(const char *code, const char *fn, int x)
 {
+    int lib = code[1] - '0';
     (void)fn; (void)x;
+    if (initkind[lib] == 'C') {    /* SyntaxError in the init code */
+        verif_event("INITEND %d %d fail", lib, verif_tid());
+        init_done[lib] = -1;
+        return NULL;
+    }
     return (PyObject *)code;       /* the "code object" is the script text "L<n>" */
 }
 PyObject *PyDict_New(void) { return &dummy_obj; }
 PyObject *PyEval_GetBuiltins(void) { return &dummy_obj; }
 int PyDict_SetItemString(PyObject *d, const char *k, PyObject *v) { (void)d; (void)k; (void)v; return 0; }
-PyObject *PyErr_Occurred(void) { return NULL; }
+/* _embedding.h asks PyErr_Occurred() once, right after the module init function of its library */
+static __thread int modinit_lib = -1;
+int verif_modinit_fails(int lib) { modinit_lib = lib; return initkind[lib] == 'M'; }
+PyObject *PyErr_Occurred(void)
+{
+    int lib = modinit_lib;
+    modinit_lib = -1;
+    if (lib >= 0 && initkind[lib] == 'M') {
+        verif_event("INITEND %d %d fail", lib, verif_tid());
+        init_done[lib] = -1;
+        return &dummy_obj;
+    }
+    return NULL;
+}
 void PyErr_Fetch(PyObject **a, PyObject **b, PyObject **c) { *a = *b = *c = NULL; }
 PyObject *PySys_GetObject(const char *n) { (void)n; return NULL; }
 int PyFile_WriteString(const char *s, PyObject *f) { (void)s; (void)f; return 0; }
@@ -378,11 +400,13 @@ PyObject *PyEval_EvalCode(PyObject *code, PyObject *g, PyObject *l)
 void verif_call_python(int lib, struct _cffi_externpy_s *e, char *args)
 {
     PyGILState_STATE st;
-    (void)e;
     verif_event("EXTERN %d %d", lib, verif_tid());
     st = PyGILState_Ensure();
     verif_point("extern-body");
-    *(int *)args = *(int *)args + 1000 * (lib + 1);
+    if (e->size_of_result == 24)
+        memset(args, 0x11, 24);                  /* lib_g_<n>: a 24-byte struct result */
+    else
+        *(int *)args = *(int *)args + 1000 * (lib + 1);
     PyGILState_Release(st);
 }
 
@@ -407,6 +431,11 @@ static void *thread_main(void *arg)
             verif_event("CALL %d %d", *p - '0', t->id);
             r = call_lib(*p - '0', 7);
             verif_event("RET %d %d %d", *p - '0', t->id, r);
+            break;
+        case 'g': case 'h':
+            verif_event("CALL %d %d", *p - 'g', t->id);
+            r = (*p == 'g') ? lib_g_0(7) : lib_g_1(7);
+            verif_event("RETG %d %d %d", *p - 'g', t->id, r);
             break;
         case 's': case 't':
             verif_event("START %d %d", *p - 's', t->id);
